@@ -1,5 +1,6 @@
 import Driver.Loop
 import PytypeModel.Sem.ArgBind
+import PytypeModel.Sem.ArgBindPytd
 import PytypeModel.Sem.KwReg
 open PytypeModel.ArgBind
 
@@ -8,6 +9,8 @@ open PytypeModel.ArgBind
   `b <npos> <kws>`   the same for a bound call `receiver.m(args)`: model = `mapArgsBound`
                          (receiver prepended only if there is a positional parameter), spec =
                          `cpyBindBound` (receiver always prepended)
+  `p <npos> <kws>`   a call of a function declared in a stub: model = `mapArgsPytd` (`ok` + what each declared
+                         parameter is matched against, `?` = nothing: it takes its default) | spec = `cpyBind`
   `c <npos> <kws>`   →  `<model> | <spec>` where each side is `ok n:ref n:ref …` (every name of the
                          frame in signature order) or `err <kind>`; `notwf` if names are not distinct
   ref: `P<i>` the caller's positional i (in `b` mode `R` = the receiver) · `K<k>` keyword k · `D` default · `T[i;j…]` *args tuple ·
@@ -58,6 +61,16 @@ def runCall (bound : Bool) (s : Sig) (c : Call) : String :=
     | .error e => "err " ++ showCpyErr e
   m ++ " | " ++ p
 
+def runCallPytd (s : Sig) (c : Call) : String :=
+  if !(decide s.WF && decide c.WF) then "notwf" else
+  let m := match mapArgsPytd s c with
+    | .ok d => "ok " ++ showView false ((s.params ++ s.kwonly).map fun p => (p, d.lookup p))
+    | .error e => "err " ++ showBindErr e
+  let p := match cpyBind s c with
+    | .ok d => "ok " ++ showView false (d.map fun (n, r) => (n, some r))
+    | .error e => "err " ++ showCpyErr e
+  m ++ " | " ++ p
+
 def emptySig : Sig := ⟨[], [], none, [], none, []⟩
 
 def stepC13 (s : Sig) (line : String) : Sig × Option String :=
@@ -69,6 +82,10 @@ def stepC13 (s : Sig) (line : String) : Sig × Option String :=
   | ["c", n, ks] =>
     match n.toNat?, parseList ks with
     | some n, some ks => (s, some (runCall false s ⟨n, ks⟩))
+    | _, _ => (s, some "bad-op")
+  | ["p", n, ks] =>
+    match n.toNat?, parseList ks with
+    | some n, some ks => (s, some (runCallPytd s ⟨n, ks⟩))
     | _, _ => (s, some "bad-op")
   | ["b", n, ks] =>
     match n.toNat?, parseList ks with
